@@ -101,3 +101,18 @@ Theorem c10_eq_hash :
     forall a b, q_same (mkStorage V V (fun v => v) (fun v => v) (mkCF V (fun a _ => a) (fun a _ => a) (fun a _ => a) (fun a _ => a)
                  (fun _ _ => false) (fun _ _ => false) veq (fun a _ => a) a)) veq a b = true -> q_hash h a = q_hash h b.
 Proof. intros V H veq h Hh a b E. exact (Hh a b E). Qed.
+
+(* mixed-base float operands: once the magnitudes are separated by more than the rounding bound of
+   the re-basing, `<` (in either operand order) decides the true order of the physical magnitudes *)
+From UomV Require Import Proofs.Tree Proofs.ErrBound.
+Theorem c10_mixed_float_separated :
+  forall prec emax (Hprec : Prec_gt_0 prec) (Hmax : Prec_lt_emax prec emax) lib
+         (Ul Ur : list (binary_float prec emax)) (d : list Z) (a b : binary_float prec emax),
+    let t := change_base_tree prec emax Hprec Hmax lib Ul Ur d b in
+    let E := (H prec ^ ops prec emax t - 1)%R in
+    Safe prec emax Hprec Hmax t -> is_finite a = true ->
+    ((B2R a < rebase_R prec emax Hprec Hmax lib Ul Ur d b - E * Rabs (rebase_R prec emax Hprec Hmax lib Ul Ur d b))%R ->
+       flt prec emax a (change_base (CFfloat prec emax Hprec Hmax lib) Ul Ur d b) = true)
+    /\ ((rebase_R prec emax Hprec Hmax lib Ul Ur d b + E * Rabs (rebase_R prec emax Hprec Hmax lib Ul Ur d b) < B2R a)%R ->
+       flt prec emax (change_base (CFfloat prec emax Hprec Hmax lib) Ul Ur d b) a = true).
+Proof. intros prec emax Hprec Hmax lib Ul Ur d a b t E St Fa. exact (mixed_lt_separated prec emax Hprec Hmax lib Ul Ur d a b St Fa). Qed.
